@@ -13,7 +13,7 @@ RULE = (
     "Cases: the shared closed-CFG sweep (enumerated n<=5 slice, Hypothesis graphs incl. name styles whose string order differs from numeric order, corpus "
     "shapes) with plain and bytecode-range payloads at the stage prefixes none/closed/loop/branch; plus the graphs the bytecode front end builds for standard-library functions (real offset ranges, generator-made names) at the same stages. For each: to_dict and to_yaml must not raise; from_dict / "
     "from_yaml of the result must give a hierarchy equal to the original under an own canonical dump (types, payload fields, ordered successors, back "
-    "edges, value tables, assignments, nesting, kind, header, exiting, parent; block insertion order is not compared); to_dict of the re-read graph equals "
+    "edges, value tables, assignments, nesting, kind, header, exiting, parent; block insertion order is not compared); plus arbitrary flat block graphs as a caller may build them (duplicate targets, self loops, several heads, caller-declared back edges); to_dict of the re-read graph equals "
     "the first dictionary and to_yaml of the re-read graph equals the first text (write-read-write-read); the region-by-region walk of C01 still succeeds on "
     "the re-read graph (successor order is checked semantically). Non-trivial = the graph contains a region, a branching synthetic block and a two-way "
     "block whose successors are not in sorted order. Distinct = hash of (input, payload)."
@@ -23,7 +23,7 @@ ASSUME = ["AST-payload graphs are outside the domain (the block-type registry ha
 STAGES = ("none", "closed", "loop", "branch")
 
 
-def roundtrip(g, scfg):
+def roundtrip(g, scfg, semantic=True):
     """raises M.Viol"""
     ref = canon.dump(scfg, ordered=False)
     try:
@@ -60,7 +60,7 @@ def roundtrip(g, scfg):
         raise M.Viol(f"S-to_yaml-raise:{type(e).__name__}@{lib_frame(e)}", f"to_yaml of the re-read graph raised {type(e).__name__}: {e}")
     if y2 != y:
         raise M.Viol("S-yaml-stable", "to_yaml(from_yaml(y)) != y")
-    for lab, s in (("dict", s2), ("yaml", s3)):
+    for lab, s in (("dict", s2), ("yaml", s3)) if semantic else ():
         try:
             M.walk_regions(g, s)
             M.check_hierarchy(s)
@@ -120,7 +120,57 @@ def _eval_byteflow(col, label, code):
     col.case(("bf", label), len(code.co_code), nt, sample=dict(function=label, front_end="bytecode"), classes=["byteflow"])
 
 
+def _run_arb(spec):
+    """arbitrary flat block graphs as a caller may build them (SCFG(graph=...)
+    or a hand-written dictionary): out-degree <= 3, duplicate targets, self
+    loops, several heads, caller-declared back edges (any subset of a block's
+    targets), plain or bytecode payload.  Round-trip clauses only (such graphs
+    are not closed CFGs, so there is nothing to walk)."""
+    import dataclasses
+
+    from hypothesis import HealthCheck, Phase, given, seed as hseed, settings, strategies as st
+
+    from vpbt.core import Collector, h64
+
+    _, seed, shard, examples = spec
+    col = Collector()
+
+    @st.composite
+    def arb(draw):
+        n = draw(st.integers(1, 7))
+        style = draw(st.sampled_from(["num", "alpha", "gen"]))
+        names = [str(i) if style == "num" else ("blk" + chr(97 + i) if style == "alpha" else f"basic_block_{i}") for i in range(n)]
+        g, be = {}, {}
+        for nm in names:
+            k = draw(st.sampled_from([0, 1, 1, 2, 2, 2, 3]))
+            ts = tuple(draw(st.sampled_from(names)) for _ in range(k))
+            g[nm] = ts
+            if ts and draw(st.integers(0, 2)) == 0:
+                be[nm] = tuple(dict.fromkeys(t for t in ts if draw(st.booleans())))
+        return g, be, draw(st.sampled_from(["plain", "bytecode"]))
+
+    @hseed(h64(("c15arb", seed, shard)))
+    @settings(max_examples=examples, database=None, deadline=None, phases=[Phase.generate], suppress_health_check=list(HealthCheck))
+    @given(x=arb())
+    def t(x):
+        g, be, payload = x
+        s0 = M.mk_scfg(g, payload)
+        scfg = SCFG({n: dataclasses.replace(b, backedges=be[n]) if be.get(n) else b for n, b in s0.graph.items()})
+        col.count("roundtrips")
+        try:
+            roundtrip(g, scfg, semantic=False)
+        except M.Viol as v:
+            col.fail(f"C15:arb:{v.clause}", f"[arbitrary flat graph/{payload}] {v.msg}", dict(arb=dict(graph=[[k, list(v_)] for k, v_ in g.items()], backedges={k: list(v_) for k, v_ in be.items()}, payload=payload)), len(g))
+        dup = any(len(set(ts)) < len(ts) for ts in g.values())
+        col.case(("arb", tuple(g.items()), tuple(sorted(be.items())), payload), len(g), dup or bool(be), sample=dict(graph=gg.graph_to_str(g), backedges={k: list(v_) for k, v_ in be.items()}, payload=payload, origin="arbitrary"), classes=["origin:arbitrary"] + (["duplicate_targets"] if dup else []) + (["declared_backedges"] if be else []))
+
+    t()
+    return col.result()
+
+
 def run(spec):
+    if spec[0] == "arb":
+        return _run_arb(spec)
     if spec[0] == "byteflow":
         from vpbt import bytecode_model as bm
         from vpbt.core import Collector
@@ -143,8 +193,10 @@ def plan(tier, seed):
     specs = sweep.plan(tier, seed, scale=0.25 if tier == "quick" else 0.15)
     if tier == "quick":
         specs += [("byteflow", s, 16, 12) for s in range(16)]
+        specs += [("arb", seed, s, 150) for s in range(8)]
     else:
         specs += [("byteflow", s, 16, 10**9) for s in range(16)]
+        specs += [("arb", seed, s, 3000) for s in range(16)]
     return specs
 
 
@@ -158,6 +210,18 @@ def replay(inp):
             if label == inp["function"]:
                 _eval_byteflow(col, label, code)
         return [(s_, f["msg"]) for s_, f in col.failures.items()]
+    if "arb" in inp:
+        import dataclasses
+
+        a = inp["arb"]
+        g = {k: tuple(v) for k, v in a["graph"]}
+        s0 = M.mk_scfg(g, a["payload"])
+        scfg = SCFG({n: dataclasses.replace(b, backedges=tuple(a["backedges"][n])) if a["backedges"].get(n) else b for n, b in s0.graph.items()})
+        try:
+            roundtrip(g, scfg, semantic=False)
+        except M.Viol as v:
+            return [(f"C15:arb:{v.clause}", v.msg)]
+        return []
     g = gg.graph_from_json(inp["graph"])
     scfg = M.mk_scfg(g, inp.get("payload", "plain"))
     try:
